@@ -41,8 +41,8 @@ inline void zero_forces(const std::vector<cell_ptr>& cells) { for (auto& c : cel
 // what the solver guarantees before the contact phase: fresh face normals/areas and node normals/curvatures
 // ID_SCHEMES: the persistent ids a population can carry while its list positions are 0..n-1 (solver start-up; after the first cell of the list was removed; after a middle cell was
 // removed; late in a run).  Ids are labels: no contact result may depend on them.
-static const int N_ID_SCHEMES = 4;
-inline unsigned scheme_id(int scheme, unsigned i) { switch (scheme) { case 0: return i; case 1: return i + 1; case 2: return 2 * i; default: return 3 + 4 * i; } }
+static const int N_ID_SCHEMES = 5;
+inline unsigned scheme_id(int scheme, unsigned i) { switch (scheme) { case 0: return i; case 1: return i + 1; case 2: return 2 * i; case 3: return 3 + 4 * i; default: return 70000 + 3 * i; /* beyond 16 bits: a long run with many divisions */ } }
 inline void prepare(const std::vector<cell_ptr>& cells, int id_scheme = 0) { for (unsigned i = 0; i < cells.size(); i++) { cell& c = *cells[i]; c.set_id(scheme_id(id_scheme, i)); c.set_local_id(i); c.update_all_face_normals_and_areas(); c.area_ = c.compute_area(); c.volume_ = c.compute_volume();
 #if CONTACT_MODEL_INDEX != 0
         c.compute_node_curvature_and_normals();
